@@ -35,7 +35,9 @@ fn dispatch(prop: &str, rec: &mut Rec) {
         "C10" => checks::c10::run(rec),
         "C12" => checks::c12::run(rec),
         "C13" => checks::c13::run(rec),
+        "C14" => checks::c14::run(rec),
         "C15" => checks::c15::run(rec),
+        "C16" => checks::c16::run(rec),
         "C11" => checks::c11::run(rec),
         _ => {
             eprintln!("unknown property {}", prop);
